@@ -128,6 +128,9 @@ def gen_resp_plan(r, token: bytes, method="GET", opts=None):
         # thousands of one-byte frames only burn scheduler steps (runs end at the cap)
         while n / plan["h2_frame"] > 3000:
             plan["h2_frame"] *= 10
+    if r.random() < 0.25:
+        # frames that are no part of the response in the middle of it (HTTP/2 only)
+        plan["h2_noise"] = True
     return plan
 
 
